@@ -4,7 +4,7 @@ of Consts.v the property depends on, the correspondence runner, and the trusted 
 TRUSTED_COMMON = [
     "Coq 8.16.1 kernel incl. its bytecode VM (vm_compute); no native_compute; no axioms declared (Print Assumptions: Closed under the global context)",
     "the hand-written Gallina model of the Rust functions (tied to /repo by the correspondence check on every run, not verified against rustc)",
-    "tools/extract_consts.py (regex translator of constants and inline literals into coq/Consts.v), tools/extract_layouts.py (digest field sequences into coq/Layouts.v) and tools/extract_purity.py (hidden-state / unsafe / ambient-input scan of the files the property reaches into coq/Purity.v), tools/extract_steps.py + tools/rustexpr.py (Rust-subset to Gallina translation of 57 function bodies into coq/Steps.v) and tools/extract_delegations.py (which half each method of a combined crypto object delegates to, into coq/Delegations.v), all re-run on every check",
+    "tools/extract_consts.py (regex translator of constants and inline literals into coq/Consts.v), tools/extract_layouts.py (digest field sequences into coq/Layouts.v) and tools/extract_purity.py (hidden-state / unsafe / ambient-input scan of the files the property reaches into coq/Purity.v), tools/extract_steps.py + tools/rustexpr.py (Rust-subset to Gallina translation of 62 function bodies into coq/Steps.v) and tools/extract_delegations.py (which half each method of a combined crypto object delegates to, into coq/Delegations.v), all re-run on every check",
     "the Rust harness /verif/harness (generators, catch_unwind, case printer) and the guarded hooks src/verif_hooks.rs",
     "Rust integer/slice semantics as rendered in the model (wrapping ops, debug overflow checks, bounds checks)",
 ]
@@ -190,7 +190,7 @@ PROPS = {
     "C11": {
         "extra_files": ["proofs/InlineConsts.v"],
         "prop_files": ["props/C11.v"],
-        "consts": ["tbc_client_header_length", "tbc_server_header_length", "wrath_large_threshold", "wrath_marker_set", "wrath_marker_clear", "wrath_marker_test", "vanilla_client_header_length", "vanilla_server_header_length", "wrath_server_header_min_length", "wrath_server_header_max_length", "session_key_length", "proof_length", "tbc_seed_enc", "tbc_seed_dec", "wrath_S", "wrath_R"],
+        "consts": ["wrath_client_header_length", "tbc_client_header_length", "tbc_server_header_length", "wrath_large_threshold", "wrath_marker_set", "wrath_marker_clear", "wrath_marker_test", "vanilla_client_header_length", "vanilla_server_header_length", "wrath_server_header_min_length", "wrath_server_header_max_length", "session_key_length", "proof_length", "tbc_seed_enc", "tbc_seed_dec", "wrath_S", "wrath_R"],
         "runner": "run_C11",
         "byte_exact": True,
         "rule": "all 12 (module, header kind, half/combined) selectors: typed encrypt/decrypt helpers over sizes {0,1,0xFF,0x100,0x7FFF,0x8000,0xFFFF} (Wrath server also 0x10000..0x7FFFFF and beyond) x opcodes {0,1,0xFF,0x100,0x1EE,0xFFFF} (+ u32 values) from random cipher states; read_and_decrypt_X through scripted readers: a failure injected at EVERY byte offset of every header kind (incl. the fifth byte of a long Wrath header, then resumed with decrypt_large_server_header) for every error kind + end of file + zero-length read, three fragmentations of the delivered prefix, plus random fragmentations with interruptions and surplus bytes; write_encrypted_X through scripted writers failing at every offset with every kind / WriteZero, and succeeding writers of every granularity. Every case goes through the implementation and the Coq model (result, bytes handed over, unread bytes, cipher state observed as (index, previous[, key]) or by an 8-byte probe for Wrath); implementation-only oracles: helper = raw call on the wire layout, state unchanged after a failed read, error kind returned unchanged, nothing consumed beyond the header, writer received a prefix / exactly the header. Added in the second session: boundary sizes (0, 0x7FFE, 0x7FFF, 0x8000, 0x8001, 0xFFFF, 0x10000, 0x7FFFFF) on the write wrappers with succeeding writers.",
